@@ -3,6 +3,7 @@ package operations
 import (
 	"archive/tar"
 	"strconv"
+	"strings"
 
 	models "github.com/pojntfx/stfs/internal/db/sqlite/models/metadata"
 	vm "github.com/pojntfx/stfs/internal/verifmodel"
@@ -24,6 +25,9 @@ type VerifEnv struct {
 	WriteOps *Operations
 	RS       int
 	Events   []*config.HeaderEvent
+	// RelNames: pre-state rows are stored the way an index rebuilt from the tape stores them (names relative to the
+	// root, the root itself as ""), while the records on the tape keep the absolute names the writer used
+	RelNames bool
 }
 
 const VerifDrive = "/ghost/drive.tar"
@@ -113,6 +117,10 @@ func (e *VerifEnv) addEntry(name string, typeflag byte, size int64, deleted bool
 	row := &models.Header{
 		Record: blocks / rs, Block: blocks % rs, Lastknownrecord: lastBlocks / rs, Lastknownblock: lastBlocks % rs,
 		Typeflag: int64(typeflag), Name: name, Linkname: linkname, Size: size, Mode: 0o644, Paxrecords: pax, Format: int64(tar.FormatPAX),
+	}
+	if e.RelNames {
+		row.Name = strings.TrimPrefix(name, "/")
+		row.Linkname = strings.TrimPrefix(linkname, "/")
 	}
 	if deleted {
 		row.Deleted = 1
